@@ -4,7 +4,8 @@ from oracles import c11_json
 PROP = "C11"
 
 SRC = "c11_json.c"
-# p0: every p0-th case is recorded (model text, compact, formatted) for the offline Python json second opinion.
+# p0: every p0-th case is recorded (model text, compact, formatted) for the offline Python json second opinion
+# (thinned by the harness to about 1000 records per process in the thorough tier).
 # leak=False: the JSON module allocator is the guard allocator (aws_common_library_init(mon_guard_allocator())), so every
 # cJSON node, key, string and print buffer is counted and the balance is an oracle of the harness; LeakSanitizer would only
 # add reports about the harness's own model trees.
@@ -12,7 +13,7 @@ SRC = "c11_json.c"
 CFG = dict(
     stages=[
         seq("asan", "asan", SRC, 20000, 2000000, params={0: 4}, leak=False),
-        seq("rel", "rel", SRC, 8000, 400000, params={0: 8}, leak=False),
+        seq("rel", "rel", SRC, 8000, 1000000, params={0: 8}, leak=False),
     ],
     rule=("case = one JSON value tree. Case indices 0-9 are seed-independent sweeps: all integers 2^k-1, 2^k, 2^k+1 (k=0..63, "
           "both signs) as decimal text and through aws_json_value_new_number; 51 special doubles (+-0, +-DBL_MAX and its "
